@@ -170,6 +170,50 @@ enum Act {
     Intr(libc::pthread_t),
 }
 
+/// Several timers inside ONE event source that forwards every event to all of them (the usual shape of a
+/// composite source: each sub-source recognises its own token and ignores the others').
+struct TimerBundle {
+    timers: Vec<(String, Timer)>,
+}
+
+impl EventSource for TimerBundle {
+    type Event = (String, Instant);
+    type Metadata = ();
+    type Ret = ();
+    type Error = std::io::Error;
+
+    fn process_events<F>(&mut self, readiness: Readiness, token: Token, mut callback: F) -> Result<PostAction, Self::Error>
+    where
+        F: FnMut((String, Instant), &mut ()),
+    {
+        for (name, t) in self.timers.iter_mut() {
+            t.process_events(readiness, token, |dl, &mut ()| {
+                callback((name.clone(), dl), &mut ());
+                TimeoutAction::Drop
+            })?;
+        }
+        Ok(PostAction::Continue)
+    }
+    fn register(&mut self, poll: &mut Poll, tf: &mut TokenFactory) -> calloop::Result<()> {
+        for (_, t) in self.timers.iter_mut() {
+            t.register(poll, tf)?;
+        }
+        Ok(())
+    }
+    fn reregister(&mut self, poll: &mut Poll, tf: &mut TokenFactory) -> calloop::Result<()> {
+        for (_, t) in self.timers.iter_mut() {
+            t.reregister(poll, tf)?;
+        }
+        Ok(())
+    }
+    fn unregister(&mut self, poll: &mut Poll) -> calloop::Result<()> {
+        for (_, t) in self.timers.iter_mut() {
+            t.unregister(poll)?;
+        }
+        Ok(())
+    }
+}
+
 struct Planned {
     at_us: u64,
     name: &'static str,
@@ -420,6 +464,8 @@ fn run_scenario(scn: &Value) {
     sh.t0 = t0;
     let _ = go_tx.send(t0);
     let mut far_unarmed = 0;
+    let bundle = scn["bundle"].as_i64().unwrap_or(0) != 0;
+    let mut bundled: Vec<(String, Timer)> = Vec::new();
     for (name, d_us, far) in &timers {
         let timer = if *far {
             let t = Timer::from_duration(Duration::MAX);
@@ -433,6 +479,10 @@ fn run_scenario(scn: &Value) {
             Timer::from_deadline(t0.checked_sub(Duration::from_micros((-*d_us) as u64)).expect("t0 - d"))
         };
         let name = name.clone();
+        if bundle {
+            bundled.push((name, timer));
+            continue;
+        }
         handle
             .insert_source(timer, move |deadline: Instant, &mut (), d: &mut Shared| {
                 let now = Instant::now();
@@ -440,6 +490,14 @@ fn run_scenario(scn: &Value) {
                 TimeoutAction::Drop
             })
             .expect("insert timer");
+    }
+    if bundle {
+        handle
+            .insert_source(TimerBundle { timers: bundled }, move |(name, deadline): (String, Instant), &mut (), d: &mut Shared| {
+                let now = Instant::now();
+                d.fired.push(json!({"n": name, "dl_us": us_since(deadline, d.t0), "at_us": us_since(now, d.t0)}));
+            })
+            .expect("insert timer bundle");
     }
 
     let mut echo = scn.clone();
